@@ -13,6 +13,10 @@ import numpy as np
 import vlib, femgen
 from props import c05_gen
 
+# axisymmetric solvers (FSolver::StaticAxisymmetric / HarmonicAxisymmetric): models AsmMAxi.v / AsmMHAxi.v, theorems in
+# Properties_C05_axi.v (+ C06 / C10 / C11 parts in their own files), harness h_fsolver_axi.cpp (props/xaxi.py)
+EXTENSIONS = ["xaxi"]
+EXTRA_PROPERTY_FILES = ["C05_axi"]
 LEVEL = "proof"
 COQ_MODULES = ["AsmM", "AsmMH"]
 ASSUMPTIONS = [
@@ -103,7 +107,7 @@ def parse_ans(path, harmonic):
             nodes.append((float(t[0]), float(t[1]), float(t[2]), int(t[3])))
     i += nn
     ne = int(L[i]); i += 1
-    elems = [tuple(int(x) for x in L[i + k].split()) for k in range(ne)]
+    elems = [tuple(int(x) for x in L[i + k].split()[:7]) for k in range(ne)]     # p0 p1 p2 lbl [e0 e1 e2 [Jprev]]
     i += ne
     nl = int(L[i]); i += 1
     labels = []
@@ -574,6 +578,8 @@ def correspond(ctx):
     cov["static_cases"] = sum(1 for c in cases if not c[1]["harmonic"])
     cov["harmonic_cases"] = sum(1 for c in cases if c[1]["harmonic"])
     cov["oracle"] = "numpy SI Galerkin residual, prescribed values, periodic pairs, circuit currents on the .ans written by the real fsolver"
+    from props import ext as extmod
+    dis += extmod.run(ctx, EXTENSIONS)
     return dis
 
 
